@@ -30,17 +30,19 @@ from ..gen.programs import Cfg
 MODULES = ["ESV.Props.C08"]
 THEOREMS = ["ESV.C08.entry_is_last_add", "ESV.C08.macro_entry_uses_stack_top", "ESV.C08.direct_and_macro_disjoint_if",
             "ESV.C08.called_in_once", "ESV.C08.run_ok_iff_depthOk", "ESV.C08.push_pop_balanced", "ESV.C08.ret_addr_bounds",
-            "ESV.C08.blueprint_seg", "ESV.C08.events_bounds", "ESV.C08.wfGo_stack_bound", "ESV.C08.buildLoop_trace"]
+            "ESV.C08.blueprint_seg", "ESV.C08.events_bounds", "ESV.C08.wfGo_stack_bound", "ESV.C08.buildLoop_trace",
+            "ESV.C08.buildItems_blueprint"]
 
 WEAK_NAMES = ("Jump", "Call")          # ops whose only parameter is a jump target: no content to recognise them by
 START_KINDS = ("stmt", "hdr", "swhdr", "casehdr", "case", "branch", "routine")
 CTRL_OPS = {"return": "Return", "end": "End", "hold": "Hold"}
 DOC_POSMARK_FIELDS = 8                 # docs/source_maps.rst: line, column, argument index, name, x off, y off, x, y
 
-KNOWN_KINDS = ["macro_file_of_transitive_import", "macro_posmarks_of_other_macros_of_the_file",
-               "outer_call_site_shadowed_by_nested_first_call", "called_in_on_dropped_first_op",
-               "param_mapping_stale_in_third_level_expansion", "posmark_tuple_layout_differs_from_docs",
-               "macro_posmark_of_nested_same_file_call_has_null_file"]
+# kinds of the findings still recorded as known; the kinds of the repaired findings (macro_posmark_nested_hang 1dfd06a,
+# macro_file_of_transitive_import db2d608, macro_posmarks_of_other_macros_of_the_file a2649b8,
+# macro_posmark_of_nested_same_file_call_has_null_file d39fded, param_mapping_stale_in_third_level_expansion 4303b4a) are
+# still computed by the oracle (narrow kinds) but are ordinary violations now
+KNOWN_KINDS = ["outer_call_site_shadowed_by_nested_first_call", "called_in_on_dropped_first_op", "posmark_tuple_layout_differs_from_docs"]
 
 
 def relfile(project: dict, f: str) -> str | None:
@@ -580,10 +582,10 @@ def tie_check(res: dict, idx: list[tuple], reps: list[dict], st: Counter) -> lis
                 out.append(f"build of {b['macro']['name']} at counter {b['count']}: the Lean model of build derives other builder calls / counter than recorded")
             elif not rep.get("wf"):
                 out.append(f"build of {b['macro']['name']}: the blueprint list fails the discipline wfBlueprint of ret_addr_bounds")
-            else:
-                # the ops returned by build must be a blueprint segment again: start label with n_real + 1
-                if b.get("out_len") != rep["n_real"] + 1 or b["out"].count("op") != rep["n_real"]:
-                    out.append(f"build of {b['macro']['name']}: returned start label length {b.get('out_len')} for {rep['n_real']} real items")
+            elif rep.get("out") != b.get("out"):
+                # the list build returns (start label with n_real + 1 and the pushed mapping, copied items whose nested start labels carry
+                # the substituted mappings, end label) is what the model's buildItems says: it is the blueprint of the next level
+                out.append(f"build of {b['macro']['name']}: the returned item list differs from the model's buildItems: {json.dumps(b.get('out'))[:300]} vs {json.dumps(rep.get('out'))[:300]}")
     if tr["routine_builder"] is None:
         out.append("no recorded builder owns the tables of the compiled source map")
     return out
@@ -623,7 +625,8 @@ def _proj(ident: str, main: str, files: dict, imports_of: dict) -> dict:
 
 
 def witnesses() -> list[tuple[str, str | None, dict]]:
-    """(name, kind expected to be reported, project)"""
+    """(name, kind of the known finding the project must exhibit | None = regression witness of a repaired finding
+    that must pass like any other project, project)"""
     P = {"k": "pos", "name": "p", "x": "1", "y": "2.5", "quote": "'"}
     end = {"t": "ctrl", "k": "end"}
     out = []
@@ -631,19 +634,19 @@ def witnesses() -> list[tuple[str, str | None, dict]]:
     out.append(("hang", None, _proj("w_hang", "main.exps", {"main.exps": {
         "macros": [_macro("a", [_op("x", 200001, *_pathargs(), P)]), _macro("b", [_call("a", 200002, True)])],
         "routines": [{"kind": "def", "id": 0, "body": [_call("b", 200003), end]}]}}, {"main.exps": []})))
-    out.append(("transitive", "macro_file_of_transitive_import", _proj("w_trans", "proj/main.exps", {
+    out.append(("transitive", None, _proj("w_trans", "proj/main.exps", {
         "proj/main.exps": {"routines": [{"kind": "def", "id": 0, "body": [_call("mc", 200011), end]}]},
         "proj/sub/b.exps": {"macros": [_macro("mb", [_op("b1", 200012, *_pathargs())])]},
         "lib/c.exps": {"macros": [_macro("mc", [_op("c1", 200013, *_pathargs())])]}},
         {"proj/main.exps": ["proj/sub/b.exps"], "proj/sub/b.exps": ["lib/c.exps"], "lib/c.exps": []})))
-    out.append(("posmarks_shared", "macro_posmarks_of_other_macros_of_the_file", _proj("w_marks", "main.exps", {
+    out.append(("posmarks_shared", None, _proj("w_marks", "main.exps", {
         "main.exps": {"routines": [{"kind": "def", "id": 0, "body": [_call("mb", 200021), end]}]},
         "lib.exps": {"macros": [_macro("ma", [_op("u", 200022, *_pathargs(), P)]), _macro("mb", [_op("w", 200023, *_pathargs())])]}},
         {"main.exps": ["lib.exps"], "lib.exps": []})))
     out.append(("shadow", "outer_call_site_shadowed_by_nested_first_call", _proj("w_shadow", "main.exps", {"main.exps": {
         "macros": [_macro("inner", [_op("i1", 200031, *_pathargs())]), _macro("outer", [_call("inner", 200032, True), _op("o1", 200033, *_pathargs())])],
         "routines": [{"kind": "def", "id": 0, "body": [_call("outer", 200034), end]}]}}, {"main.exps": []})))
-    out.append(("posmark_null_file", "macro_posmark_of_nested_same_file_call_has_null_file", _proj("w_nullfile", "main.exps", {
+    out.append(("posmark_null_file", None, _proj("w_nullfile", "main.exps", {
         "main.exps": {"routines": [{"kind": "def", "id": 0, "body": [_call("b", 200061), end]}]},
         "lib.exps": {"macros": [_macro("a", [_op("x", 200062, *_pathargs(), P)]), _macro("b", [_op("y", 200063, *_pathargs()), _call("a", 200064, True)])]}},
         {"main.exps": ["lib.exps"], "lib.exps": []})))
@@ -651,7 +654,7 @@ def witnesses() -> list[tuple[str, str | None, dict]]:
     out.append(("dropped_first", "called_in_on_dropped_first_op", _proj("w_dropped", "main.exps", {"main.exps": {
         "macros": [_macro("m", [{"t": "while", "not": False, "header": hdr, "body": []}, _op("x1", 200042, *_pathargs())])],
         "routines": [{"kind": "def", "id": 0, "body": [_op("a", 200043), _call("m", 200044), end]}]}}, {"main.exps": []})))
-    out.append(("param_depth3", "param_mapping_stale_in_third_level_expansion", _proj("w_depth3", "main.exps", {"main.exps": {
+    out.append(("param_depth3", None, _proj("w_depth3", "main.exps", {"main.exps": {
         "macros": [_macro("l3", [_op("z", 200051, *_pathargs(), _v("$q"))], ["$q"]),
                    _macro("l2", [_call("l3", 200052, True, [_v("$q")])], ["$q"]),
                    _macro("l1", [_op("y", 200053, *_pathargs()), _call("l2", 200054, True, [_v("$q")])], ["$q"])],
@@ -773,7 +776,8 @@ def run(run: core.Run) -> int:
                 kind = "macro_posmark_nested_hang" if has_hang_shape(p) else "compiler_gives_no_answer"
                 run.violation(kind, "compile neither returns nor raises a documented error (killed after the time limit)", {"texts": c["texts"], "main": p["main"]})
             elif c.get("witness"):
-                run.notes.append(f"witness {c['witness'][0]} does not compile: {r['error']} {r['msg']}")
+                run.violation("witness_does_not_compile", f"witness {c['witness'][0]} does not compile: {r['error']} {r['msg']}",
+                              {"texts": c["texts"], "main": p["main"], "project": strip_ids(p)})
             continue
         ok_cases.append((c, r))
     # glue cross-check: the repo's parser sees the AST the generator printed (first cases only: the printer is shared with C01)
